@@ -345,12 +345,7 @@ theorem walk_rel : ∀ (f : Nat) (t : Tracker) (src hc : Nat) (blk : Nat × Nat)
       rw [hsb] at hr
       cases x with
       | notarized h =>
-        simp only at hr
-        have ok := w.slot blk.1 hge
-        rw [hsb] at ok
-        have := sf.notar_final (blk.1, h) blk (ok.1.mono hs') (hblkF.mono hs') rfl
-        have hh : h = blk.2 := by rw [← this]
-        rw [if_pos hh] at hr
+        -- D27: `h` may differ from `blk.2` (a notarized sibling); the slot becomes `ImplicitlyFinalized(blk.2)`
         exact hgo (by rw [hsb]; simp [dec_some, Status.decided]) hr
       | finalPending =>
         exact hgo (by rw [hsb]; simp [dec_some, Status.decided]) hr
